@@ -7,6 +7,7 @@ package main
 
 import (
 	"bytes"
+	"runtime"
 	"encoding/binary"
 	"flag"
 	"fmt"
@@ -140,7 +141,7 @@ func runRd(fam, kind, streamTok, script, ops string) string {
 		if consume {
 			pos += len(b)
 		}
-		return fmt.Sprintf("ok %s %s", lc(b), loc(b, caller)) + c
+		return fmt.Sprintf("ok %s %s", lc(b), loc(b, caller)) + c + uaf(b)
 	}
 	dead := false
 	for i, op := range splitOps(ops) {
@@ -224,19 +225,30 @@ func runRd(fam, kind, streamTok, script, ops string) string {
 
 // ---------------------------------------------------------------- rsd: ReaderSkipDecoder
 
+var rsdPoolDirty bool // a released decoder may still sit in sync.Pool
+
 func runRsd(streamTok, script, ops string) string {
+	if rsdPoolDirty {
+		// two collections empty sync.Pool (victim cache): no decoder of an earlier history, with a buffer
+		// of that history's allocation numbering, may be handed to this one
+		runtime.GC()
+		runtime.GC()
+		rsdPoolDirty = false
+	}
 	instrReset()
+	lastCap = 0
 	stream := parseStream(streamTok)
 	src := lib.NewSource(stream, lib.ParseScript(script))
-	// never Released: a pooled decoder would carry its buffer into the next history
 	d := thrift.NewReaderSkipDecoder(src)
 	var out []string
 	pos := 0
+	var last, lastWant []byte // the result of the latest Next: valid until the next Next / Release
 	for i, op := range splitOps(ops) {
 		quiet, dead := false, false
 		res := lib.Guard(func() string {
 			switch op[0] {
 			case 't':
+				last, lastWant = nil, nil
 				b, err := d.Next(thrift.TType(int8(atoi(op[1:]))))
 				if err != nil {
 					quiet, dead = true, true
@@ -248,15 +260,42 @@ func runRsd(streamTok, script, ops string) string {
 					c = " CORRUPT"
 				}
 				pos += len(b)
-				return fmt.Sprintf("ok %s %s", lc(b), loc(b, nil)) + c
+				last, lastWant = b, append([]byte(nil), b...)
+				return fmt.Sprintf("ok %s %s", lc(b), loc(b, nil)) + c + uaf(b)
+			case 'R':
+				// Release, then NewReaderSkipDecoder again: on one goroutine sync.Pool normally hands the
+				// same object back (recorded: the model takes this bit as an input); in between the
+				// co-tenant takes buffers of the size class the decoder's buffer had
+				last, lastWant = nil, nil
+				c := 0
+				if pos > 0 {
+					c = lastCap
+				}
+				old := d
+				d.Release()
+				coTenantTake(c)
+				d = thrift.NewReaderSkipDecoder(src)
+				if d == old {
+					return "reget 1"
+				}
+				rsdPoolDirty = true
+				return "reget 0"
 			case 'e':
 				env(i)
 				return "env"
 			}
 			return "bad-op"
 		})
+		if last != nil {
+			lastCap = cap(last)
+		}
 		if strings.HasPrefix(res, "PANIC") {
 			quiet, dead = true, true
+		}
+		envBetween(i)
+		if last != nil && !bytes.Equal(last, lastWant) {
+			res += " STALE0"
+			last = nil
 		}
 		if quiet {
 			instrDrain()
@@ -271,6 +310,8 @@ func runRsd(streamTok, script, ops string) string {
 	out = append(out, "end"+events())
 	return strings.Join(out, " / ")
 }
+
+var lastCap int
 
 // ---------------------------------------------------------------- wr: writer histories
 
@@ -352,7 +393,7 @@ func runWr(kind string, sinkfail int, ops string) string {
 				j := len(regs)
 				copy(b, patBytes(regPat(j, 0), len(b))) // the user fills the region at once
 				regs = append(regs, region{b: b, live: true, pat: regPat(j, 0)})
-				return "ok " + loc(b, targetArr)
+				return "ok " + loc(b, targetArr) + uaf(b)
 			case 'f':
 				j := atoi(op[1:])
 				if j < 0 || j >= len(regs) || !regs[j].live {
